@@ -227,12 +227,23 @@ fn dec_len_harness<const N: usize>(g2: bool, k: Kind) {
 }
 
 // ---- encoders: byte layout of a normalised point with arbitrary canonical coordinates
+#[allow(dead_code)]
 fn fq_of(c: &[u64; 4]) -> sm9_core::Fq {
     sm9_core::Fq::from_slice(&be_bytes32(c)).unwrap()
 }
+// stored limbs a; canonical value c: under Kani decode is modelled as the identity (layout-only model: byte
+// placement cannot depend on which bijection decode is), natively the real decode is read back
+fn raw_and_canon(a: [u64; 4]) -> (sm9_core::Fq, [u64; 4]) {
+    let f = pub_fq(fq_from_raw(a));
+    #[cfg(kani)]
+    let c = a;
+    #[cfg(not(kani))]
+    let c = be_value4(&f.to_slice());
+    (f, c)
+}
 fn enc_g1() {
-    let (cx, cy) = (any_below(&Q), any_below(&Q));
-    let p = G1::new(fq_of(&cx), fq_of(&cy), sm9_core::Fq::one());
+    let ((fx, cx), (fy, cy)) = (raw_and_canon(any_below(&Q)), raw_and_canon(any_below(&Q)));
+    let p = G1::new(fx, fy, sm9_core::Fq::one());
     let (bx, by) = (be_bytes32(&cx), be_bytes32(&cy));
     let s = p.to_slice();
     let u = p.to_uncompressed();
@@ -249,9 +260,10 @@ fn enc_g1() {
     cover!(cy[0] & 1 == 1, "odd y");
 }
 fn enc_g2() {
-    let (x0, x1, y0, y1) = (any_below(&Q), any_below(&Q), any_below(&Q), any_below(&Q));
-    let x = sm9_core::Fq2::new(fq_of(&x0), fq_of(&x1));
-    let y = sm9_core::Fq2::new(fq_of(&y0), fq_of(&y1));
+    let ((fx0, x0), (fx1, x1)) = (raw_and_canon(any_below(&Q)), raw_and_canon(any_below(&Q)));
+    let ((fy0, y0), (fy1, y1)) = (raw_and_canon(any_below(&Q)), raw_and_canon(any_below(&Q)));
+    let x = sm9_core::Fq2::new(fx0, fx1);
+    let y = sm9_core::Fq2::new(fy0, fy1);
     let p = G2::new(x, y, sm9_core::Fq2::one());
     let s = p.to_slice();
     let u = p.to_uncompressed();
@@ -368,12 +380,12 @@ macro_rules! dec_h {
             #[kani::unwind(34)]
             #[kani::stub(core::arch::x86_64::_addcarry_u64, addcarry_stub)]
             #[kani::stub(core::arch::x86_64::_subborrow_u64, subborrow_stub)]
-            #[kani::stub(sm9_core::verif_hooks::U256::mul, mul_model)]
+            #[kani::stub(sm9_core::verif_hooks::U256::mul, mul_dec_id)]
             fn k_enc_g1() { enc_g1() }
             #[kani::unwind(34)]
             #[kani::stub(core::arch::x86_64::_addcarry_u64, addcarry_stub)]
             #[kani::stub(core::arch::x86_64::_subborrow_u64, subborrow_stub)]
-            #[kani::stub(sm9_core::verif_hooks::U256::mul, mul_model)]
+            #[kani::stub(sm9_core::verif_hooks::U256::mul, mul_dec_id)]
             fn k_enc_g2() { enc_g2() }
             #[kani::unwind(34)]
             #[kani::stub(core::arch::x86_64::_addcarry_u64, addcarry_stub)]
